@@ -43,7 +43,7 @@ PROFILES = ["plain", "busy", "adds", "extras", "multiball", "enders", "mixed"]
 # ------------------------------------------------------------------------------------------------
 # generator
 def gen_op(rng, prof):
-    w = {"drain": 2, "addbip": 1, "endball": 1, "endgame": 1, "slam": 1, "addplayer": 2, "award": 1}
+    w = {"drain": 2, "addbip": 1, "endball": 1, "endgame": 0.25, "slam": 0.25, "addplayer": 2.5, "award": 1}
     if prof == "adds":
         w = {"drain": 1, "addbip": 0, "endball": 1, "endgame": 0, "slam": 0, "addplayer": 8, "award": 1}
     elif prof == "extras":
@@ -105,6 +105,8 @@ def gen_game(rng, tier, i):
     prof = rng.choice(PROFILES)
     dens = {"plain": 0.04, "busy": 0.35, "adds": 0.25, "extras": 0.12, "multiball": 0.15, "enders": 0.06,
             "mixed": rng.choice([0.02, 0.1, 0.5])}[prof]
+    if prof == "adds" and rng.random() < 0.5:
+        dens = 0.6
     n = rng.choice([6, 15, 30, 60, 100, 160, 240])
     if tier == "thorough" and rng.random() < 0.2:
         n *= 2
